@@ -5,6 +5,7 @@ from common import Fr, enc_q, close, rng
 import gmgen
 
 LEAN_MODULE = 'PGM.Properties.C11'
+LEAN_EXTRA = ['PGM.Properties.C11B']
 TRUSTED = ['Lean 4.33 kernel', 'axioms: propext, Classical.choice, Quot.sound',
            'hand model PGM/Model/Synth.lean of the inner synthetic_col (rounding mode) tied to graphical_model.py:196-249 by applying the verified checker colOK to every (column, group) of the generated table',
            'the column loop (generation order, grouping by the already generated relevant attributes) is re-derived by the harness from model.elimination_order; pandas groupby / numpy repeat, shuffle, choice are trusted',
@@ -24,10 +25,83 @@ def table_counts(df, attrs):
     return c
 
 
+class SynthRecorder:
+    """records, from outside, what the column loop of synthetic_data does: the grouping attributes of every conditional step
+    (DataFrame.groupby) and the array every synthetic_col call returns (the array handed to np.random.shuffle, after the shuffle)"""
+
+    def __enter__(self):
+        import pandas as pd
+        self.by, self.cols = [], []
+        self._gb, self._sh = pd.DataFrame.groupby, np.random.shuffle
+        rec = self
+
+        def groupby(df, by=None, *a, **k):
+            rec.by.append(list(by) if isinstance(by, (list, tuple)) else [by])
+            return rec._gb(df, by, *a, **k)
+
+        def shuffle(x):
+            rec._sh(x)
+            rec.cols.append([int(v) for v in x])
+        pd.DataFrame.groupby = groupby
+        np.random.shuffle = shuffle
+        return self
+
+    def __exit__(self, *a):
+        import pandas as pd
+        pd.DataFrame.groupby = self._gb
+        np.random.shuffle = self._sh
+
+
+def table_request(dom, joint, model, rec, nrows):
+    """the request replaying the whole table in the Lean model (synthTable) from the recorded outcomes; None when the run cannot be
+    aligned with the column loop (reported by the caller)"""
+    attrs = [a for a, _ in dom]
+    sizes = dict(map(tuple, dom))
+    order = list(model.elimination_order)[::-1]
+    cliques = [set(c) for c in model.cliques]
+    specs, used, by = [], [], list(rec.by)
+    for k, col in enumerate(order):
+        want = set() if k == 0 else set(used) & set().union(*[c for c in cliques if col in c])
+        if want:
+            if not by:
+                return None, f'step {k} (column {col}): the model conditions on {sorted(want)} but the implementation made no further groupby call'
+            proj = by.pop(0)
+            if set(proj) != want or len(set(proj)) != len(proj):
+                return None, f'step {k} (column {col}): the implementation groups by {proj}, the column loop of the model conditions on {sorted(want)}'
+        else:
+            proj = []
+        pm = gmgen.brute_marginal(dom, joint, proj + [col], Fr(1))
+        keys = list(itertools.product(*[range(sizes[a]) for a in proj]))
+        n = sizes[col]
+        cond = [{'key': list(g), 'counts': [enc_q(x) for x in pm[i * n:(i + 1) * n]]} for i, g in enumerate(keys)]
+        specs.append({'col': attrs.index(col), 'proj': [attrs.index(a) for a in proj], 'size': n, 'cond': cond})
+        used.append(col)
+    if by:
+        return None, f'the implementation made {len(by)} more groupby call(s) than the column loop has conditional steps'
+    # the recorded synthetic_col results, step by step: one per group; the number of groups of a step is known only from the replay, so the
+    # flat list is cut greedily by the model: here by replaying the grouping on the implementation's own final table
+    return {'specs': specs, 'order': order}, None
+
+
+def cut_outcomes(df, attrs, spec_req, cols):
+    """split the flat list of recorded synthetic_col results into steps: a step has as many results as its grouping has distinct keys
+    in the final table (the keys of a step do not change afterwards: synthTable_groupKeys_stable)"""
+    outs, i = [], 0
+    vals = df[attrs].values
+    for sp in spec_req['specs']:
+        ng = len({tuple(row[j] for j in sp['proj']) for row in vals.tolist()}) if len(vals) else 0
+        if not sp['proj']:
+            ng = 1 if len(vals) else 0
+        outs.append(cols[i:i + ng])
+        i += ng
+    return outs, i
+
+
 def run(res, drv, tier, seed):
     r = rng(seed, 'C11')
     n = 40 if tier == 'quick' else 300
     items, item_ctx = [], []
+    tables = []
     for ci in range(n):
         dom, cl, kind = gmgen.gen_structure(r, 400, nmax=5)
         total = r.choice([1, 2, 7, 10, 37.6, 100, 1000, 12345.9, 10 ** 5] + ([10 ** 6] if tier == 'thorough' else []))
@@ -53,12 +127,24 @@ def run(res, drv, tier, seed):
         res.count('method:' + method)
         rp = {'request': canon}
         try:
-            with np.errstate(all='ignore'):
+            with np.errstate(all='ignore'), SynthRecorder() as srec:
                 synth = model.synthetic_data(rows=rows, method=method)
         except Exception as e:
             res.violation('failing-input', f'synthetic_data raises {type(e).__name__}: {str(e)[:120]}', dict(rp, observed=str(e)), key='synth:raises')
             continue
         df = synth.df
+        if method == 'round' and drv and df.shape[0] <= 20000:
+            tq, why = table_request(dom, joint, model, srec, df.shape[0])
+            if tq is None:
+                tables.append((canon, None, why, df, attrs))
+            else:
+                outs, usedn = cut_outcomes(df, attrs, tq, srec.cols)
+                par = []
+                for k, sp in enumerate(tq['specs']):
+                    pj = set(sp['proj'])
+                    par.append(next((j for j in range(k - 1, -1, -1) if pj <= set(tq['specs'][j]['proj']) | {tq['specs'][j]['col']}), k) if pj else 0)
+                tables.append((canon, {'op': 'synth_table', 'ncols': len(attrs), 'total': int(df.shape[0]), 'specs': tq['specs'], 'outs': outs,
+                                       'parent': par, 'mass': '1'}, (usedn, len(srec.cols)), df, attrs))
         want_rows = int(total) if rows is None else rows
         bad = None
         if df.shape[0] != want_rows:
@@ -181,6 +267,44 @@ def run(res, drv, tier, seed):
                                   {'request': canon, 'model': it, 'stream': 'C11.colOK'})
                     break
         res.extra['groups_checked_by_verified_colOK'] = len(items)
+    # the whole table: the Lean model of the column loop (synthTable) replays the recorded synthetic_col results and must reproduce the
+    # implementation's table row by row; the replayed table then has to meet the row-independent bound of synthTable_clique_error
+    live = [t for t in tables if t[1] is not None]
+    resps = drv.run([t[1] for t in live], timeout=1200) if drv and live else []
+    it = iter(resps)
+    for canon, req, info, df, attrs in tables:
+        rp = {'request': canon}
+        if req is None:
+            res.violation('correspondence', 'column loop: ' + info, dict(rp, stream='C11.table'))
+            continue
+        o = next(it)
+        res.count('whole tables replayed row by row in the Lean model')
+        if not o['ok']:
+            res.violation('correspondence', 'driver error ' + o['err'], dict(rp, stream='C11.table'))
+            continue
+        o = o['out']
+        usedn, nrec = info
+        if usedn != nrec:
+            res.violation('correspondence', f'column loop: the implementation made {nrec} synthetic_col calls, the groups of the model\'s steps account for {usedn}', dict(rp, stream='C11.table'))
+            continue
+        if o['table'] != df[attrs].values.tolist():
+            k = next((i for i, (a, b) in enumerate(zip(o['table'], df[attrs].values.tolist())) if a != b), None)
+            res.violation('correspondence', f'whole table: the model\'s replay of the column loop differs from the implementation\'s table (first at row {k})', dict(rp, stream='C11.table'))
+            continue
+        if not o['wf'] or not o.get('chain_wf', True):
+            res.violation('correspondence', f'column loop: steps not well formed (specsWF {o["wf"]}, chainWF {o.get("chain_wf")}): the generation order is not a perfect elimination order of the model cliques',
+                          dict(rp, stream='C11.table'))
+            continue
+        if not o['outs_ok']:
+            res.count('whole tables with a near-integer target somewhere (outsOK decided by the tolerance check)')
+            continue
+        res.count('whole tables accepted by outsOK (hypotheses of the table theorems hold)')
+        if not o.get('marg_consistent', True):
+            res.violation('correspondence', 'brute-force marginals are not one consistent family (harness error)', dict(rp, stream='C11.table'))
+        elif any(Fr(w) > b for w, b in zip(o['worst_err'], o['err_bound'])):
+            res.violation('correspondence', f'replayed table breaks the proved bound: worst clique errors {o["worst_err"]} vs bounds {o["err_bound"]}', dict(rp, stream='C11.table'))
+        else:
+            res.extra.setdefault('clique_error_vs_bound', []).append([[float(Fr(w)) for w in o['worst_err']], o['err_bound'], int(df.shape[0])])
     sequences(res, tier, seed)
 
 
